@@ -15,10 +15,11 @@
 -/
 import OpmVerif.Model.Scan
 import OpmVerif.Model.DeckWrite
+import OpmVerif.Model.RawKw
 -- driver: prefix=deck handler=OpmVerif.DeckIO.handle
 
 namespace OpmVerif.DeckIO
-open OpmVerif.Lex OpmVerif.Tok OpmVerif.Scan OpmVerif.DeckWrite
+open OpmVerif.Lex OpmVerif.Tok OpmVerif.Scan OpmVerif.DeckWrite OpmVerif.RawKw
 
 def hx (b : Bytes) : String := if b.isEmpty then "-" else toHex b
 
@@ -185,6 +186,37 @@ def readVals (s : String) : Option Vals :=
 def readRecord (s : String) : Option (List Vals) :=
   if s = "-" then some [] else (s.splitOn ";").mapM readVals
 
+def parseSizeType : String → Option SizeType
+  | "S" => some .slashTerminated | "F" => some .fixed | "U" => some .unknown
+  | "T" => some .tableCollection | "C" => some .code | "D" => some .doubleSlash | _ => none
+
+def parseSchemas (s : String) : Option (List (List Item)) :=
+  if s = "none" then some [] else (s.splitOn "|").mapM parseSchema
+
+def parseNames (s : String) : Option (List Bytes) :=
+  if s = "-" then some [] else (s.splitOn ",").mapM ofHex
+
+/-- deck.kw <st> <raw> <min|-> <size> <alt> <double> <schemas> <recognised names> <sentinel> <text> -/
+def handleKw (args : List String) : String :=
+  match args with
+  | [st, raw, mn, sz, alt, dbl, sch, names, sentinel, text] =>
+    match parseSizeType st, parseSchemas sch, parseNames names, ofHex sentinel, ofHex text with
+    | some sizeType, some schemas, some recNames, some sent, some txt =>
+      let minSize : Option Nat := if mn = "-" then none else some mn.toNat!
+      match mkKw sizeType (raw == "1") minSize sz.toNat! with
+      | none => "err"
+      | some k0 =>
+        match parseKeywordText conv (fun n => recNames.contains n) k0 schemas (alt == "1") (dbl == "1") txt with
+        | none => "err"
+        | some (rs, rest) =>
+          let restNames := (rest.filter (· ≠ [])).map makeDeckName
+          let recs := if rs.isEmpty then "none" else "|".intercalate (rs.map showRecord)
+          if restNames.isEmpty then "ok " ++ recs ++ " next=-"
+          else if restNames == [sent] then "ok " ++ recs ++ " next=" ++ hx sent
+          else "err"
+    | _, _, _, _, _ => "bad-op"
+  | _ => "bad-op"
+
 def handle (op : String) (args : List String) : String :=
   match op, args with
   | "deck.strip", [h] => match ofHex h with
@@ -250,6 +282,7 @@ def handle (op : String) (args : List String) : String :=
       | none => "err"
       | some r => showRecord r
     | _, _, _ => "bad-op"
+  | "deck.kw", _ => handleKw args
   | "deck.write", [split, rec] => match readRecord rec with
     | some r => hx (writeRecord idFmt (split == "1") r)
     | none => "bad-op"
